@@ -561,7 +561,7 @@ def _run_shard(ctx, args):
         try:
             res = one(ctx, tcase, k)
         except ValueError as e:
-            if "does not fit" in str(e) and not isinstance(tcase, str):
+            if not isinstance(tcase, str) and wb.outside_domain(tcase):
                 ctx.count("generator_rejected_by_ctor")
                 continue
             raise
@@ -578,7 +578,7 @@ def _run_shard(ctx, args):
         try:
             hardness(ctx, tcase)
         except ValueError as e:
-            if "does not fit" in str(e) and not isinstance(tcase, str):
+            if not isinstance(tcase, str) and wb.outside_domain(tcase):
                 continue
             raise
 
